@@ -52,8 +52,12 @@ type Config struct {
 	Eager    bool   `json:"eager"` // retry at every clock tick instead of after RecheckDuration
 	// Mode "" = both Rollouts finalise their traffic routing; "route" = both apply a traffic step (DoTrafficRouting:
 	// the Lua runtime computes the canary Ingress annotations, A for 10 %, B for 90 %)
-	Mode string `json:"mode,omitempty"`
-	Solo string `json:"solo"` // "", "A" or "B": run only that Rollout (reference system)
+	// Mode "clean" = both Rollouts finalise while the registry's background cleaner runs (CleanOutdatedItems,
+	// twice, at any point the scheduler chooses) and a THIRD, abandoned Rollout's outdated timers lie in the
+	// registry; MapSeed fixes the iteration order of every Go map of the process (rotation of the in-bucket start)
+	Mode    string `json:"mode,omitempty"`
+	MapSeed int    `json:"map_seed,omitempty"`
+	Solo    string `json:"solo"` // "", "A" or "B": run only that Rollout (reference system)
 }
 
 type rolloutSpec struct {
@@ -114,6 +118,11 @@ func Configs(thorough bool) []Config {
 		out = append(out, Config{Scenario: sc, Mode: "route", GraceA: 1, GraceB: 1})
 		out = append(out, Config{Scenario: sc, Mode: "route", GraceA: 1, GraceB: 1, OffB: 1})
 	}
+	// the background cleaner of the grace registry at work next to both finalisings, for three rotations of the map
+	// iteration order (abandoned Rollout's key first / after A / after A and B)
+	for seed := 0; seed < 3; seed++ {
+		out = append(out, Config{Scenario: "two-ns", Mode: "clean", GraceA: 1, GraceB: 2, MapSeed: seed})
+	}
 	if thorough {
 		// the variant in which every clock tick wakes every waiting worker for free (a strictly larger bound-k set)
 		for _, sc := range []string{"two-ns", "same-ns"} {
@@ -128,6 +137,9 @@ func Configs(thorough bool) []Config {
 		}
 		if c.Mode != "" {
 			c.ID = c.Mode + "/" + c.ID
+		}
+		if c.Mode == "clean" {
+			c.ID += fmt.Sprintf("/mapseed%d", c.MapSeed)
 		}
 	}
 	return out
@@ -151,6 +163,11 @@ func MaxBound(thorough bool, c Config) int {
 		return false
 	}
 	switch {
+	case c.Mode == "clean":
+		if thorough {
+			return 2
+		}
+		return 1
 	case c.Mode == "route":
 		if thorough {
 			return 3
@@ -592,6 +609,18 @@ func newSystem(cfg Config, check func(s *system, x *sched.Execution)) *system {
 	s.ex.Setup = func() []sched.ThreadSpec {
 		atomic.StoreInt64(&vnow, 0)
 		grace.ResetExpectations()
+		if cfg.Mode == "clean" {
+			runtime.VerifMapIterFixed, runtime.VerifMapIterSeed = true, uintptr(cfg.MapSeed)
+			if cfg.Solo == "" {
+				// the outdated timers of an abandoned third Rollout (ten virtual minutes old), inserted first
+				old := baseTime.Add(-10 * time.Minute)
+				stale := map[grace.Action]time.Time{}
+				for _, a := range []string{"updateRoute", "restoreGateway", "removeCanaryService", "patchService", "restoreService"} {
+					stale[grace.Action(a)] = old // the action names the traffic-routing manager records its waits under
+				}
+				grace.VerifRestore(map[string]map[grace.Action]time.Time{"uid-rollout-abandoned": stale})
+			}
+		}
 		ros := cfg.rollouts()
 		s.w = newWorld(cfg, ros)
 		cl := &pointClient{Client: s.w.inner, w: s.w}
@@ -599,6 +628,15 @@ func newSystem(cfg Config, check func(s *system, x *sched.Execution)) *system {
 		for _, ro := range ros {
 			s.w.names = append(s.w.names, ro.Thread)
 			th = append(th, sched.ThreadSpec{Name: ro.Thread, Body: s.w.workerBody(ro, cl)})
+		}
+		if cfg.Mode == "clean" {
+			s.w.names = append(s.w.names, "cleaner")
+			th = append(th, sched.ThreadSpec{Name: "cleaner", Body: func() {
+				for i := 0; i < 2; i++ {
+					sched.Point("cleaner")
+					grace.DefaultGraceExpectations.CleanOutdatedItems(5 * time.Minute)
+				}
+			}})
 		}
 		s.w.names = append(s.w.names, "clock")
 		return append(th, sched.ThreadSpec{Name: "clock", Env: true, Body: s.w.clockBody(int32(len(ros)))})
@@ -1002,7 +1040,7 @@ func Worker(idx int, out string) {
 func Run(r *lib.Report) {
 	thorough := r.Thorough()
 	cfgs, jobs := Configs(thorough), Jobs(thorough)
-	r.Rule = "E2 (CHESS-style): for every closed system = scenario {two namespaces sharing the names echo/echo-canary; one namespace with names demo/demo-x, echo/echo-x} x {both Rollouts finalising their traffic routing: grace variant {A=1s,B=3s; A=0s,B=2s} x every start offset of one Rollout inside the other's finalising | mode 'route': both Rollouts applying a traffic step through DoTrafficRouting, A to 10 %, B to 90 %, the shared Lua runtime computing each one's Ingress annotations; start offsets 0 and 1}, EVERY schedule of the threads {worker A, worker B, clock} with at most k preemptions (k = 0,1,.. up to the bound listed per config) is executed on the real trafficrouting.Manager.FinalisingTrafficRouting + the real process-global grace registry (sync shim: every Mutex/RWMutex operation and every API call is a scheduling point); depth-first over choice prefixes, no sampling, no state pruning. A preemption = switching away from a still-enabled running thread, an early clock tick (while a worker could run), or an early reconcile (before the requeue time). Non-trivial = schedules in which both Rollouts wrote to the store."
+	r.Rule = "E2 (CHESS-style): for every closed system = scenario {two namespaces sharing the names echo/echo-canary; one namespace with names demo/demo-x, echo/echo-x} x {both Rollouts finalising their traffic routing: grace variant {A=1s,B=3s; A=0s,B=2s} x every start offset of one Rollout inside the other's finalising | mode 'route': both Rollouts applying a traffic step through DoTrafficRouting, A to 10 %, B to 90 %, the shared Lua runtime computing each one's Ingress annotations; start offsets 0 and 1 | mode 'clean': both Rollouts finalising while the grace registry's background cleaner (CleanOutdatedItems, two invocations at scheduler-chosen points) runs and an abandoned third Rollout's ten-minute-old timers lie in the registry, for three rotations of the Go map iteration order (runtime overlay: VerifMapIterFixed / VerifMapIterSeed)}, EVERY schedule of the threads {worker A, worker B, clock} with at most k preemptions (k = 0,1,.. up to the bound listed per config) is executed on the real trafficrouting.Manager.FinalisingTrafficRouting + the real process-global grace registry (sync shim: every Mutex/RWMutex operation and every API call is a scheduling point); depth-first over choice prefixes, no sampling, no state pruning. A preemption = switching away from a still-enabled running thread, an early clock tick (while a worker could run), or an early reconcile (before the requeue time). Non-trivial = schedules in which both Rollouts wrote to the store."
 	r.Assumptions = []string{
 		"Lengthening of a grace wait by another Rollout is NOT flagged: with a shared grace key `Expect` only overwrites the record time, which changes neither the final state nor any stated safety property (DESIGN.md §4 C19); only a gap SHORTER than the minimum over all solo schedules is a violation (the configured gracePeriodSeconds is observable behaviour).",
 		"Gap oracle events per Rollout: stable Service un-pin -> canary Ingress delete, canary Ingress delete -> canary Service delete, canary Service delete -> FinalisingTrafficRouting returning done (the last one stands for the writes the controller issues after finalising).",
